@@ -18,7 +18,13 @@ from . import tlaparse
 ROOT = os.path.dirname(os.path.dirname(os.path.abspath(__file__)))
 SPEC = os.path.join(ROOT, "spec")
 WORK = os.path.join(ROOT, ".work")
-EVID = os.path.join(ROOT, "evidence")
+# The checks import pyformlang from /repo's working tree.  VERIF_REPO points them at another checkout instead (used by
+# tools/seedcheck.py --scratch to evaluate a seeded change in a scratch worktree while /repo is in use).
+REPO = os.environ.get("VERIF_REPO", "/repo")
+PYPATH = ROOT if REPO == "/repo" else REPO + os.pathsep + ROOT
+if REPO != "/repo":
+    sys.path.insert(0, REPO)
+EVID = os.path.join(ROOT, "evidence") if REPO == "/repo" else os.path.join(WORK, "evidence-scratch")   # evidence/ is for /repo only
 REPLAYS = os.path.join(ROOT, "replays")
 PY = "/venv/bin/python"
 JAR = "/opt/veriftools/tla/tla2tools.jar:/opt/veriftools/tla/CommunityModules-deps.jar"
@@ -203,7 +209,7 @@ def replay_pool(driver_name, cases, work, hashseeds=(0,), nproc=NCPU, timeout=36
                 f.write(json.dumps(c) + "\n")
         e = dict(os.environ)
         e["PYTHONHASHSEED"] = str(hashseeds[k % len(hashseeds)])
-        e["PYTHONPATH"] = ROOT
+        e["PYTHONPATH"] = PYPATH
         e["PYFORMLANG_VERIF"] = "1"
         if extra_env:
             e.update(extra_env)
@@ -241,7 +247,8 @@ def record_tests(test_paths, work, ops, stats=None, timeout=900):
     os.makedirs(d, exist_ok=True)
     rec = os.path.join(d, "recorded.ndjson")
     e = dict(os.environ)
-    e.update(PYFORMLANG_VERIF="1", VERIF_RECORD_FILE=rec, PYTHONPATH=ROOT, PYTHONHASHSEED="0")
+    e.update(PYFORMLANG_VERIF="1", VERIF_RECORD_FILE=rec, PYTHONPATH=PYPATH, PYTHONHASHSEED="0")
+    test_paths = [REPO + t[len("/repo"):] if t.startswith("/repo/") else t for t in test_paths]
     cmd = [PY, "-m", "pytest", "-q", "-x", "-p", "no:cacheprovider", "-p", "harness.record"] + list(test_paths)
     t0 = time.time()
     p = subprocess.run(cmd, cwd=d, env=e, stdout=subprocess.PIPE, stderr=subprocess.STDOUT, text=True, timeout=timeout)
